@@ -69,6 +69,12 @@ func init() {
 			op.ID = g.id("s")
 			sc.Setup = append(sc.Setup, op)
 		}
+		copyLedger := r.Chance(0.4)
+		if copyLedger {
+			// an imported copy: what it answers at a point in time is what the source answers (same ids, same dates)
+			sc.Setup = append(sc.Setup, Op{ID: g.id("s"), Kind: KExport, Ledger: "l1"}, Op{ID: g.id("s"), Kind: KCreateLedger, Ledger: "lc", Bucket: "copies"},
+				Op{ID: g.id("s"), Kind: KImport, Ledger: "lc", From: "l1", Chunked: 1 << 20})
+		}
 		hdr := map[string]string{"Content-Type": "application/json"}
 		for c := 0; c < 1+r.Intn(3); c++ {
 			var ops []Op
@@ -107,9 +113,17 @@ func init() {
 						op.Raw.Body, op.Raw.Header = `{"$match":{"address":"`+op.Address+`"}}`, hdr
 					}
 				case 5:
-					op.Raw = &Request{Method: "GET", Path: "/v2/l1/transactions?pageSize=100&pit=" + t}
+					l := "l1"
+					if copyLedger && r.Bool() {
+						l = "lc"
+					}
+					op.Raw = &Request{Method: "GET", Path: "/v2/" + l + "/transactions?pageSize=100&pit=" + t}
 				case 6:
-					op.Raw = &Request{Method: "GET", Path: fmt.Sprintf("/v2/l1/transactions/%d?pit=%s", 1+r.Intn(int(txN)), t)}
+					l := "l1"
+					if copyLedger && r.Bool() {
+						l = "lc"
+					}
+					op.Raw = &Request{Method: "GET", Path: fmt.Sprintf("/v2/%s/transactions/%d?pit=%s", l, 1+r.Intn(int(txN)), t)}
 				default:
 					op.Raw = &Request{Method: "GET", Path: "/v2/l1/accounts/meta:only?pit=" + t}
 				}
@@ -200,6 +214,23 @@ func checkPITReads(r *runner) []Violation {
 		ledgerName, resource := parts[1], parts[2]
 		if _, ok := hist[ledgerName]; !ok {
 			hist[ledgerName], firsts[ledgerName] = r.pitHistory(ledgerName)
+			if ledgerName == "lc" {
+				// the copy holds the transactions of its source, with the source's dates and revert dates: the
+				// reference is the source's rows (for the ids the copy holds), not what the import wrote
+				src, _ := r.pitHistory("l1")
+				byID := map[uint64]pitTx{}
+				for _, t := range src {
+					byID[t.id] = t
+				}
+				var ref []pitTx
+				for _, t := range hist[ledgerName] {
+					if s, ok := byID[t.id]; ok {
+						s.event = t.event
+						ref = append(ref, s)
+					}
+				}
+				hist[ledgerName] = ref
+			}
 		}
 		txs, first := hist[ledgerName], firsts[ledgerName]
 		parse := func(s string) *gotime.Time {
